@@ -717,7 +717,7 @@ func (e *Executor) Pending(ctx context.Context) ([]File, error) {
 			return nil, err
 		}
 	// In case we applied a checkpoint, but it was only partially applied.
-	case revs[len(revs)-1].Applied != revs[len(revs)-1].Total && len(all) > 0:
+	case partiallyApplied(revs[len(revs)-1]) && len(all) > 0:
 		if idx, found := slices.BinarySearchFunc(all, revs[len(revs)-1], func(f File, r *Revision) int {
 			return strings.Compare(f.Version(), r.Version)
 		}); found {
@@ -735,7 +735,7 @@ func (e *Executor) Pending(ctx context.Context) ([]File, error) {
 	case len(migrations) > 0:
 		var (
 			last      = revs[len(revs)-1]
-			partially = last.Applied != last.Total
+			partially = partiallyApplied(last)
 			fn        = func(f File) bool { return f.Version() <= last.Version }
 		)
 		if partially {
@@ -756,7 +756,7 @@ func (e *Executor) Pending(ctx context.Context) ([]File, error) {
 			return migrations, nil
 		}
 		// If this file was not partially applied, take the next one.
-		if last.Applied == last.Total {
+		if !partially {
 			idx++
 		}
 		pending = migrations[idx:]
@@ -788,6 +788,12 @@ func (e *Executor) Pending(ctx context.Context) ([]File, error) {
 		return nil, ErrNoPendingFiles
 	}
 	return pending, nil
+}
+
+// partiallyApplied reports if the revision records a partially applied file that was
+// not manually resolved (e.g., marked as applied using the 'migrate set' command).
+func partiallyApplied(r *Revision) bool {
+	return r.Applied != r.Total && !r.Type.Has(RevisionTypeResolved)
 }
 
 // Execute executes the given migration file on the database. If it sees a file, that has been partially applied, it
